@@ -321,7 +321,7 @@ func c04Property(t *rapid.T) {
 			s.peerLive("D", lossCoin(t))
 		},
 		"peerAdmin": func(t *rapid.T) {
-			s.peerLive(rapid.SampledFrom([]string{"0", "1"}).Draw(t, "type"), lossCoin(t))
+			s.peerLive(rapid.SampledFrom([]string{"0", "1", "2"}).Draw(t, "type"), lossCoin(t))
 		},
 		"burstLoss": func(t *rapid.T) {
 			if mon.ep != nil || len(s.pendingReplays) > 0 || lossOutstanding {
